@@ -53,8 +53,15 @@ def main():
                 print(f'{name:10s} {chk} [{a.tier}]: {verdict:12s} {first[:150]}')
         finally:
             shutil.rmtree(scratch, ignore_errors=True)
-        with open(respath, 'w') as f:
-            json.dump(results, f, indent=1, sort_keys=True)
+        # merge under a lock: several evaluations may run at the same time
+        import fcntl
+        with open(respath + '.lock', 'w') as lk:
+            fcntl.flock(lk, fcntl.LOCK_EX)
+            cur = json.load(open(respath)) if os.path.exists(respath) else {}
+            if name in results:
+                cur.setdefault(name, {}).update(results[name])
+            with open(respath, 'w') as f:
+                json.dump(cur, f, indent=1, sort_keys=True)
 
 
 if __name__ == '__main__':
